@@ -80,8 +80,9 @@ def solver_case(item):
 # ---------------------------------------------------------------- 2. constraint handling
 
 def constrain_case(item):
-    n, cmask, mode, use_lhs0, rmask = item
-    key = f'solve n={n} constrain={mode}{list(cmask)} lhs0={use_lhs0} rconstrain={rmask}'
+    n, cmask, mode, use_lhs0, rmask = item[:5]
+    prior = item[5] if len(item) > 5 else None       # (constrain mask, rconstrain mask) of an EARLIER solve on the same matrix object (the submatrix cache is per object)
+    key = f'solve n={n} constrain={mode}{list(cmask)} lhs0={use_lhs0} rconstrain={rmask}' + (f' after a solve with constrain={list(prior[0])} rconstrain={list(prior[1])} on the same matrix' if prior else '')
     out = dict(key=key, paths=0, unsat=0, unknown=0, cex=[], returned=0, raised={})
     nfree = n - builtins.sum(cmask)
     def run():
@@ -99,6 +100,10 @@ def constrain_case(item):
         def stub(mat, rhs, atol, **kw): return y
         with patched():
             m = mnp.NumpyMatrix(A)
+            if prior:
+                y0 = SArray.symbolic('y0', (n - builtins.sum(prior[0]),))
+                try: m.solve(b, constrain=numpy.array(prior[0], dtype=bool), rconstrain=numpy.array(prior[1], dtype=bool), solver=lambda mat, rhs, atol, **kw: y0, atol=atol)
+                except matrix.MatrixError: pass
             try:
                 lhs = m.solve(b, lhs0=lhs0, constrain=constrain, rconstrain=rconstrain, solver=stub, atol=atol)
             except matrix.ToleranceNotReached:
@@ -135,7 +140,8 @@ def constrain_case(item):
 
 def replay_constrain(item, model=None):
     '''real numpy backend, direct solver: constrained entries must be exact and the free residual small'''
-    n, cmask, mode, use_lhs0, rmask = item
+    n, cmask, mode, use_lhs0, rmask = item[:5]
+    prior = item[5] if len(item) > 5 else None
     rng = numpy.random.default_rng(1)
     A = rng.integers(1, 5, (n, n)).astype(float) + 4 * numpy.eye(n); b = rng.integers(-3, 4, n).astype(float)
     lhs0 = rng.integers(-3, 4, n).astype(float) if use_lhs0 else None
@@ -145,6 +151,9 @@ def replay_constrain(item, model=None):
     try:
         with matrix.backend('numpy'):
             m = matrix.assemble_csr(A.ravel(), numpy.arange(0, n * n + 1, n), numpy.tile(numpy.arange(n), n), n)
+            if prior:
+                try: m.solve(b, constrain=numpy.array(prior[0], dtype=bool), rconstrain=numpy.array(prior[1], dtype=bool), solver='direct', atol=1e-10)
+                except matrix.MatrixError: pass
             lhs = m.solve(b, lhs0=lhs0, constrain=constrain, rconstrain=rconstrain, solver='direct', atol=1e-10)
     except matrix.MatrixError as e:
         return False, f'raised {type(e).__name__}'
@@ -487,6 +496,33 @@ def replay_droptol(c):
     if not numpy.array_equal(got, want): return True, f'jacobian {A.tolist()} droptol {c["droptol"]}: NaN pattern {got.tolist()}, columns below tolerance {want.tolist()}'
     return False, 'agree'
 
+# ---------------------------------------------------------------- 7. Topology.project keeps earlier constraints (auxiliary, concrete)
+
+def project_cases():
+    '''constraint aggregation: project(fun, ..., constrain=prev) must return prev's prescribed entries unchanged (exactly), for every projection type and for zero and
+    non-zero functions (the zero right-hand side takes a shortcut).  Real meshes, real numpy: finite facts, labelled auxiliary.'''
+    from nutils import mesh
+    bad = []; n = 0
+    with treelog.set(treelog.NullLog()):
+        for shape in ((2, 2), (3, 1)):
+            topo, geom = mesh.rectilinear([numpy.arange(k + 1.) for k in shape])
+            for btype, degree in (('std', 1), ('std', 2), ('spline', 2)):
+                basis = topo.basis(btype, degree=degree)
+                prev = topo.boundary['left'].project(1.5 + geom[1], onto=basis, geometry=geom, ischeme='gauss4')
+                for side in ('bottom', 'top', 'right'):
+                    for fun, fname in ((0., 'zero'), (2., 'constant'), (geom[0] - .5, 'linear')):
+                        for ptype in ('lsqr', 'convolute', 'nodal'):
+                            n += 1
+                            try:
+                                out = topo.boundary[side].project(fun, onto=basis, geometry=geom, ischeme='gauss4', constrain=prev, ptype=ptype)
+                            except Exception as ex:
+                                bad.append(f'project({fname}) on {side} of {shape} {btype}{degree} ptype={ptype}: raised {type(ex).__name__}: {ex}'[:200]); continue
+                            keep = ~numpy.isnan(prev)
+                            if not numpy.array_equal(numpy.asarray(out)[keep], numpy.asarray(prev)[keep]):
+                                bad.append(f'project({fname}) on {side} of a {shape} mesh, {btype}{degree}, ptype={ptype}: earlier constraints changed from {numpy.asarray(prev)[keep].tolist()} to {numpy.asarray(out)[keep].tolist()}')
+                            if numpy.isnan(out).sum() > numpy.isnan(prev).sum(): bad.append(f'project({fname}) on {side} {shape} {btype}{degree} {ptype}: constraints were dropped')
+    return n, bad
+
 def main(argv=None):
     args = harness.parse_args(PID, argv)
     if args.replay:
@@ -494,9 +530,10 @@ def main(argv=None):
         d = json.load(open(args.replay))['replay']
         if d['kind'] == 'driver': ok, detail = replay_driver(d)
         elif d['kind'] == 'nonfinite': ok, detail = replay_nonfinite(d['item'])
+        elif d['kind'] == 'project': n, bad = project_cases(); ok, detail = bool(bad), str(bad[:2])
         elif d['kind'] == 'roundtrip': ok, detail = replay_roundtrip((d['item'][0], d['item'][1], tuple(d['item'][2]), d['item'][3]))
         elif d['kind'] == 'droptol': ok, detail = replay_droptol(d)
-        else: ok, detail = replay_constrain(tuple(d['item']))
+        else: ok, detail = replay_constrain(tuple(tuple(x) if isinstance(x, list) else x for x in d['item']))
         print('REPRODUCED' if ok else 'not reproduced', detail); return 1 if ok else 0
     run = harness.Run(PID, 'other', args,
         'The certifying glue of the solvers is executed symbolically with the numerical back ends replaced by nondeterministic stubs: on every path of Matrix._solver, Matrix.solve and the '
@@ -518,6 +555,9 @@ def main(argv=None):
                     cases.append(('constrain', (n, cmask, mode, use_lhs0, None)))
         cases.append(('constrain', (n, (1,) + (0,) * (n - 1), 'bool', True, (0,) * (n - 1) + (1,))))
     if not thorough: cases.append(('constrain', (3, (0, 1, 0), 'float', True, None)))
+    # histories on one matrix object: an earlier solve with different row and column selections, then a solve whose free set equals the earlier free rows
+    cases.append(('constrain', (2, (0, 1), 'bool', False, None, ((1, 0), (0, 1))))); cases.append(('constrain', (3, (0, 0, 1), 'bool', True, None, ((1, 0, 0), (0, 0, 1)))))
+    cases.append(('constrain', (3, (0, 1, 0), 'float', False, None, ((0, 0, 1), (0, 1, 0))))); cases.append(('constrain', (2, (1, 0), 'float', True, None, ((1, 0), (1, 0)))))
     for n in ((1, 2, 3) if thorough else (1, 2)): cases.append(('guess', n))
     for K in ((2, 3, 4) if thorough else (2, 3)):
         for has_maxiter in (True, False): cases.append(('driver', (K, True, has_maxiter)))
@@ -562,6 +602,10 @@ def main(argv=None):
                 run.violation(f'solver:nonfinite:{out["key"]}', f'Matrix._solver returned a non-finite vector produced by the solver method ({out["key"]})', dict(kind='nonfinite', item=list(out['item'])))
             else:
                 run.unconfirmed(out['key'], f'{c["kind"]}: {c["detail"]} {c.get("model", "")}'[:300])
+    if not args.only or args.only == 'project':
+        n, bad = project_cases()
+        run.counters['project_constraint_aggregation_cases'] = n
+        for b in bad[:5]: run.violation('project:' + b[:90], 'Topology.project does not keep earlier constraints: ' + b, dict(kind='project', note=b))
     # vacuity twins: (a) driver claim strengthened to "norm < tol/2" must be refutable; (b) a driver path that returns exists
     with treelog.set(treelog.NullLog()): tw = driver_case((1, True, True))
     run.twin(tw['returned'] > 0 and tw['raised'].get('SolverError', 0) > 0)
